@@ -1433,6 +1433,11 @@ func (ro *RedisOutput) bisyncStartPoint(ctx context.Context, runIDs []string) (S
 		return sp, 0, false, nil
 	}
 	rootStartPoint := StartPoint{DbId: dbID, RunId: cpi.RunId, Offset: cpi.Offset}
+	// GetCheckpoint leaves the connection in the last database it scanned (any database of the target that holds keys) :
+	// the recovery records - latest, frontier snapshot, journal - are kept in database 0
+	if err := redispkg.SelectDB(cli, 0); err != nil {
+		return sp, 0, false, err
+	}
 
 	slots := ro.bisyncRecoverySlots()
 	if ro.cfg.ReplayMode.UsesFrontier() {
